@@ -23,6 +23,25 @@ strengthened = {
  "C13-D":"c13: real-search `go ponder` left alone on near-final roots (clock 85..99, pre-repetition, mate/stalemate-adjacent)",
  "C05-D":"c05/c01 generator: pawns around the en-passant square, doubled enemy pawns on its file",
 }
+
+strengthened.update({
+ "C05-E":"new session stream c05s (one long-lived board, walks with null moves, IsPseudoLegal sweep vs generated set after every operation, twice in a row)",
+ "C05-F":"c11seq registered under C05 as well (repeated refused command on one driver)",
+ "C06-F":"c10reuse: `position fen <other root>` between start-position lists on one driver; registered under C06 and C02 as well",
+ "C09-E":"new session stream c09s (depth-first walks on one board, questions in random order incl. post-order, each answer also asked of a fresh copy)",
+ "C12-E":"C12 extra step: implementation side repeated in fresh processes under GOMAXPROCS 1,2,3,5,6,7,12,NumCPU-1,NumCPU+1",
+ "C12-F":"same (GOMAXPROCS < NumCPU)",
+ "C15-E":"new stream c15multi (1–4 tables alive and interleaved, tables created after another outgrew its buffer)",
+ "C15-F":"c15multi: LookUp results held and read late, in both orders",
+ "C16-E":"new stream c16s (store sessions: unframed root with framed children, pickers created ahead, Clear between New and Next, Frame() probes)",
+ "C16-F":"c16s (pickers created ahead of running / New then Clear)",
+ "C17-E":"new session stream c17s (one long-lived board, shuffles back to the same placement with another clock, ResetFifty, Eval at chosen points vs a fresh board)",
+ "C17-F":"new stream c17c (8–16 goroutines in eval.Eval at once vs sequential answers; observation of runtime behaviour)",
+ "C19-E":"new stream c19fresh (fresh process; first calls of EngineCoeffs from 8–16 goroutines released together)",
+ "C19-F":"c19vec modes 4/5 (several TunedParams iterators alive: lockstep, nested, interleaved; concurrent workers)",
+ "C20-E":"c20_batch: iterators ranged repeatedly, after break, nested and interleaved",
+})
+
 def describe(v):
     fr = v.get("first_replay", {})
     if fr.get("kind") == "witness":
